@@ -13,6 +13,10 @@ THREADS     N in {2,4,8} threads x ~50 inputs on ONE shared compiled model / one
             from a sys.monitoring LINE tool restricted to tatsu's code objects; results compared
             with the sequential results (vt/monitors/c10_threads.py).
 
+plan() evaluates the pool (and the "sibling" calls used to explain divergences) in fresh
+interpreters, 16 at a time, and hands the table to every shard (cached for the run); what is not in
+the table is evaluated on demand.
+
 A divergence gets a *mechanism* signature: which argument dimension of which earlier call explains
 the observed result (the observed result equals the fresh result of the same call with that option
 taken from the earlier call), or which process-wide registry does (synthesized classes).  A
@@ -29,7 +33,7 @@ import subprocess
 import sys
 from concurrent.futures import ThreadPoolExecutor
 
-from ..common import REPO, VERIF, h64, hs
+from ..common import REPO, VERIF, h64
 from ..monitors import c10_calls as C
 
 ID = 'C10'
@@ -476,18 +480,17 @@ def explanations(steps, results, k, fresh):
                                                for n in names)]
         return []
 
-    if exp != obs:
-        ps = registry_poisoners(exp)
-        if ps:
-            yield [(SYNTH_SIG, 'synthesized node classes keep the bases of their first synthesis in the process')], ps
+    # candidate leaks: the victim with arguments of an earlier same-grammar call (evaluated lazily)
     tried = {}
     guess = cache_entry_guess(v)
     order = sorted(range(k), key=lambda j: (cache_entry_guess(steps[j]['desc']) != guess, -j))
-    for only_compile_level in (True, False):
+    leaks = []
+
+    def leak_candidates(compile_level):
         for j in order:
             p = steps[j]['desc']
             for v2, sig, txt, plvl in substitutions(p, v):
-                if only_compile_level != (plvl == 'c'):
+                if compile_level != (plvl == 'c'):
                     continue
                 k2 = C.desc_key(v2)
                 if k2 not in tried:
@@ -495,17 +498,33 @@ def explanations(steps, results, k, fresh):
                         tried[k2] = fresh.get(v2)
                     except Exception:  # noqa: BLE001
                         tried[k2] = KeyError
-                r2 = tried[k2]
-                if r2 is KeyError:
-                    continue
-                txt2 = txt + f' [earlier call: {describe(p)}]'
-                if r2 == obs:
-                    yield [(sig, txt2)], [j]
-                elif mask_synth_bases(r2) == mask_synth_bases(obs):
-                    ps = registry_poisoners(r2)
-                    if ps:
-                        yield ([(sig, txt2), (SYNTH_SIG, 'and synthesized classes keep the bases of their first synthesis')],
-                               sorted(set([j] + ps)))
+                if tried[k2] is not KeyError:
+                    yield j, sig, txt + f' [earlier call: {describe(p)}]', tried[k2]
+
+    # 1. an argument that reached tatsu.compile in an earlier call explains the observation exactly
+    for j, sig, txt, r2 in leak_candidates(True):
+        if r2 == obs:
+            yield [(sig, txt)], [j]
+        else:
+            leaks.append((j, sig, txt, r2))
+    # 2. the class registry alone
+    if exp != obs:
+        ps = registry_poisoners(exp)
+        if ps:
+            yield [(SYNTH_SIG, 'synthesized node classes keep the bases of an earlier synthesis in the process')], ps
+    # 3. an argument of an earlier parse call / parser construction explains it exactly
+    for j, sig, txt, r2 in leak_candidates(False):
+        if r2 == obs:
+            yield [(sig, txt)], [j]
+        else:
+            leaks.append((j, sig, txt, r2))
+    # 4. a leak and the registry together
+    for j, sig, txt, r2 in leaks:
+        if mask_synth_bases(r2) == mask_synth_bases(obs):
+            ps = registry_poisoners(r2)
+            if ps:
+                yield ([(sig, txt), (SYNTH_SIG, 'and synthesized classes keep the bases of an earlier synthesis')],
+                       sorted(set([j] + ps)))
 
 
 # ----------------------------------------------------------------------------------------------
@@ -626,6 +645,20 @@ def report_divergence(acc, steps, results, k, fresh, state, origin):
                            'verified_in_fresh_process': verified, 'origin': origin})
         return
     acc.count('unexplained_divergences')
+    vk = C.desc_key(v)
+    if vk not in state['rechecked'] and fresh.spend(2):
+        # is the oracle table still valid?  (the working tree may have been edited during the run)
+        state['rechecked'].add(vk)
+        again, _ = fresh_eval(strip(v))
+        if again != exp:
+            third, _ = fresh_eval(strip(v))
+            if third == again:
+                raise RuntimeError('fresh-interpreter result of ' + describe(v) + ' changed during the run: '
+                                   'the tree under test was modified while the check was running')
+            acc.violation('fresh/nondeterministic-result',
+                          f'{describe(v)} gave different results in fresh interpreters: {short(exp)} vs {short(again)}',
+                          {'mode': 'fresh-twice', 'steps': [{'desc': strip(v)}]})
+            return
     ukey = (v.get('id'), kind)
     if state['shrunk'] < 4 and ukey not in state['unattributed']:
         state['shrunk'] += 1
@@ -718,7 +751,7 @@ def check_history(acc, steps, fresh, state, origin):
 
 
 def new_state():
-    return {'verified_sigs': set(), 'shrunk': 0, 'confirmed': {}, 'refuted': set(), 'unattributed': set()}
+    return {'verified_sigs': set(), 'shrunk': 0, 'confirmed': {}, 'refuted': set(), 'unattributed': set(), 'rechecked': set()}
 
 
 def run_hist(desc, acc):
